@@ -379,6 +379,9 @@ class SInt(Sym):
     def __rtruediv__(self, o):
         return o / self._f()
 
+    def __divmod__(self, o):
+        return self // o, self % o
+
     def __floordiv__(self, o):
         c = _int_const(o)
         if c is not None and c > 0:
@@ -492,6 +495,9 @@ class SBV(Sym):
         if c is not None and c > 0:
             return SBV((self.t % z3.BitVecVal(c, 64)))       # sign follows the (positive) divisor: floor mod
         return NotImplemented
+
+    def __divmod__(self, o):
+        return self // o, self % o
 
     def __floordiv__(self, o):
         c = _int_const(o)
